@@ -23,6 +23,29 @@ CHECKS = {
              "delivered before the deadline' plus write-side exactly-once. Evidence, not proof: samples an exponential space.",
         note="Trusts: SimLoop reproduces asyncio FIFO semantics; inbound objects built as the transports build them; anyio/pydantic real.",
         technique=TECH + "; reference-model oracle over the recorded delivery/consumption history"),
+    "C03": dict(
+        level="exploration", ref="DESIGN.md section 5 C03",
+        text="Seeded search over (supported list, preferred, server answer kind, answer instant around the timeout, distractors, duplicate "
+             "answer) against the real send_initialize / send_initialize_with_client_tracking; history oracle on what was written and when "
+             "(exactly one initialized after acceptance, none ever after a failure - checked again after a quiescence period) and on the "
+             "tracked client's batching mode. Sampling of a few-thousand-combination space x timing.",
+        note="Trusts: SimLoop; the judge of a 'well-formed answer' is an independent structural check; malformed/error answers may raise any exception.",
+        technique=TECH + "; ordering/absence oracle over the recorded write history"),
+    "C14": dict(
+        level="exploration", ref="DESIGN.md section 5 C14",
+        text="Seeded search over placements of {token cancel, matching response, deadline} on a ~1 ms virtual grid around poll edges, with "
+             "background floods and raising/sleeping progress callbacks, against the real send_message; oracle: completion <= deadline, "
+             "cancel within one poll, exactly-once cancelled notification naming the id, callback log = matching progress notifications "
+             "delivered before completion. Windows the sentence leaves open are accepted narrowly and counted as probes.",
+        note="Trusts: SimLoop timing (zero scheduling noise); slow-callback family is checked for order/values/prefix only.",
+        technique=TECH + "; bounded-liveness and exactly-once oracles in virtual time"),
+    "C18": dict(
+        level="exploration", ref="DESIGN.md section 5 C18",
+        text="Seeded search over 2..4 concurrent callers x answer permutations x answer instants x unrelated traffic on one stream pair; "
+             "a consumption log (which task consumed which item) gives the cause of every loss. Cross-talk is a violation; the "
+             "architectural lost-response defect is recorded as known finding F-C18-1 by its cause signature, other causes still alarm.",
+        note="Trusts: SimLoop FIFO wake-up order equals anyio's; answers are only sent after the peer saw the request.",
+        technique=TECH + "; per-caller outcome vs consumption-log oracle"),
 }
 
 PENDING = "check not built yet (planned, see DESIGN.md section 5)"
